@@ -343,7 +343,21 @@ def violated(msg):
 '''
 
 
+_REPLAY_CACHE = {}
+
+
 def make_replay(prop, name, rs, per_proof, obls=()):
+    pn = rs[0].meta.get("proof")
+    if pn in _REPLAY_CACHE:
+        path, txt, real = _REPLAY_CACHE[pn]
+        return path, txt + " (same proof, same replay)", real
+    res = _make_replay(prop, name, rs, per_proof, obls)
+    if res[2] or len(_REPLAY_CACHE) > 12:
+        _REPLAY_CACHE[pn] = res
+    return res
+
+
+def _make_replay(prop, name, rs, per_proof, obls=()):
     """write a replay file for a failed obligation; try the proof's native replayer on the model"""
     d = os.path.join(VERIF, "replays", prop)
     os.makedirs(d, exist_ok=True)
